@@ -2022,6 +2022,10 @@ func rangeRewrite(p *Prog, host *ssa.Function, isPtr func(ssa.Value) bool, resul
 							fromAddr = true
 						}
 					}
+					// ... printed whole: String() of that address, not a part of it
+					if cl, ok := canon(s2.Val).(*ssa.Call); !ok || cl.Common().StaticCallee() == nil || cl.Common().StaticCallee().Name() != "String" {
+						fromAddr = false
+					}
 				}
 			})
 			switch {
